@@ -7,8 +7,9 @@
    exact), evenodd p ring (odd number of edges crossed by the ray cast EAST, half-open rule),
    strict_in = ~on_boundary /\ evenodd.  Rings are arbitrary lists of integer points of any
    length (closed or not: the cyclic edge list closes them), so the theorems hold in particular
-   for every simple ring.  Hypotheses: every vertex strictly east of the ray end
-   (west_ok w ring: longitude > -180) and the query not west of it (w <= px p: longitude >= -180). *)
+   for every simple ring.  Hypotheses: no vertex west of the ray end (west_ok w ring:
+   longitude >= -180) and the query not west of it (w <= px p: longitude >= -180) — true of
+   every Coordinate, whose longitude is normalised into [-180, 180). *)
 From GV Require Import Prelude GeomM GeomP GeomP2 GeomP3.
 Open Scope Z_scope.
 
